@@ -39,13 +39,16 @@ def main():
         env = dict(os.environ)
         env.update({"VERIF_REPO": repo, "VERIF_CACHE": cache, "VERIF_EVIDENCE_DIR": os.path.join(scratch, "evidence"),
                     "VERIF_OUT_DIR": os.path.join(scratch, "out"), "VERIF_TIER": "quick"})
-        sh("rsync -rlpgoD --checksum --delete --exclude /target --exclude /.git /repo/ %s/" % repo)
+        # snapshot /repo once, under the lock mutall/mutcheck hold while they have a patch applied there
+        pristine = os.path.join(scratch, "pristine")
+        sh("flock /tmp/verif-repo.lock rsync -a --delete --exclude /target --exclude /.git /repo/ %s/" % pristine)
+        sh("rsync -rlpgoD --checksum --delete %s/ %s/" % (pristine, repo))
         base = sh("./check all", V, env).stdout
         if "VIOLATION" in base:
             print("BASELINE NOT CLEAN in scratch copy:\n" + "\n".join(l for l in base.splitlines() if "VIOLATION" in l or "rule=" in l)[:2000])
         for t in targets:
             d = os.path.join(V, "seeded", t)
-            sh("rsync -rlpgoD --checksum --delete --exclude /target --exclude /.git /repo/ %s/" % repo)
+            sh("rsync -rlpgoD --checksum --delete %s/ %s/" % (pristine, repo))
             ap = sh("git apply --unsafe-paths --directory=%s %s" % (repo, os.path.join(d, "patch.diff")), "/")
             if ap.returncode != 0:
                 ap = sh("patch -p1 -s -f -i %s" % os.path.join(d, "patch.diff"), repo)
